@@ -173,6 +173,8 @@ func calleeShort(fn *ssa.Function) string {
 // callByContract: assert requires, havoc modifies, assume ensures.
 func (f *Frame) callByContract(ins ssa.Instruction, fc *FuncContract, callee *ssa.Function, args []Value, st *State) Value {
 	u := f.u
+	f.keepRegions = u.eng.preservedBy(f.fn, ins, callee)
+	defer func() { f.keepRegions = nil }()
 	if fc.Extern {
 		u.usedExterns[fc.Pkg+"."+fc.Target] = true
 	}
@@ -217,6 +219,14 @@ func (f *Frame) callByContract(ins ssa.Instruction, fc *FuncContract, callee *ss
 		t, err := ce.evalBool(r.E)
 		if err != nil {
 			f.errorf("call %s requires %q: %v", cname, r.Text, err)
+			continue
+		}
+		root := f
+		for root.parent != nil {
+			root = root.parent
+		}
+		if root.fc != nil && !root.fc.NoPanic {
+			u.assume(st.reach, t) // `nopanic off`: callee preconditions are assumed as well
 			continue
 		}
 		u.oblige("call-pre", fmt.Sprintf("%s%s/call-pre/%s#%d/%d", u.name, f.prefix, cname, k, i), "requires "+r.Text+" of "+cname, pos, st.reach, t)
@@ -453,6 +463,12 @@ func (f *Frame) havocRow(st *State, elem types.Type, base Term) {
 // callUnknown: no contract, not inlinable: havoc results and what the call may write.
 func (f *Frame) callUnknown(ins ssa.Instruction, name string, c *ssa.CallCommon, args []Value, resT *types.Tuple, st *State, dynamic bool) Value {
 	u := f.u
+	var static *ssa.Function
+	if ci, ok := ins.(ssa.CallInstruction); ok && !dynamic {
+		static = ci.Common().StaticCallee()
+	}
+	f.keepRegions = u.eng.preservedBy(f.fn, ins, static)
+	defer func() { f.keepRegions = nil }()
 	u.havocked[name] = true
 	set := map[string]bool{}
 	if ci, ok := ins.(ssa.CallInstruction); ok {
@@ -783,6 +799,8 @@ func (f *Frame) invoke(ins ssa.Instruction, c *ssa.CallCommon, args []Value, st 
 
 func (f *Frame) invokeByContract(ins ssa.Instruction, fc *FuncContract, c *ssa.CallCommon, recv Value, args []Value, st *State) Value {
 	u := f.u
+	f.keepRegions = u.eng.preservedBy(f.fn, ins, nil)
+	defer func() { f.keepRegions = nil }()
 	u.usedExterns["iface "+fc.Pkg+"."+fc.Target] = true
 	sig := c.Signature()
 	params := map[string]CVal{"recv": f.cval(recv, c.Value.Type())}
@@ -1062,6 +1080,14 @@ func (f *Frame) selectOp(x *ssa.Select, st *State) Value {
 	}
 	u.assume(st.reach, bvInRange(bv64(lo), idx, bv64(int64(len(x.States)-1))))
 	f.siteHook("select", x, st, nil)
+	// every send case of the select is a release site of its own
+	for _, sst := range x.States {
+		if sst.Dir == types.SendOnly {
+			f.siteChan = sst.Chan
+			f.siteHook("send", x, st, map[string]Value{"value": f.val(sst.Send)})
+			f.siteChan = nil
+		}
+	}
 	vals := []Value{{T: idx, Ty: types.Typ[types.Int]}, {T: u.sc.fresh("selok", SBool), Ty: types.Typ[types.Bool]}}
 	for _, s := range x.States {
 		if s.Dir == types.RecvOnly {
@@ -1248,6 +1274,8 @@ func (f *Frame) siteOperandMatches(ins ssa.Instruction, target string) bool {
 	// target like "x.F" or "F": match by field name of the operand's defining FieldAddr/load
 	var op ssa.Value
 	switch x := ins.(type) {
+	case *ssa.Select:
+		op = f.siteChan
 	case *ssa.Send:
 		op = x.Chan
 	case *ssa.Store:
@@ -1364,6 +1392,9 @@ func hasReferences(t types.Type) bool {
 // local variables of the running frames whose address never escapes.
 func (f *Frame) havocRegion(st *State, r string) {
 	u := f.u
+	if f.keepRegions[r] {
+		return // protected region: no writer reachable from this call
+	}
 	old := u.heapGet(st.heap, r)
 	nh := u.sc.fresh("hv_"+sanitize(r), u.rsorts[r])
 	for fr := f; fr != nil; fr = fr.parent {
